@@ -6,6 +6,7 @@ definition differ syntactically and the lemma fail.
 -/
 import RubatoModel.Async
 import RubatoModel.Fft
+import RubatoModel.FftUnitModel
 
 namespace Rubato.FormulaTie
 open Rubato Rubato.Gen
@@ -158,45 +159,68 @@ theorem fftIn_ready (saved chunkIn fi fo : Nat) :
         (Formulas.fftIn_proc_nbr_chunks_ready (ρ := ρ) (Formulas.fftIn_proc_next_saved_frames (ρ := ρ) saved chunkIn) fi) fo :=
   rfl
 
+/-- FftResampler::new: the anti-aliasing cutoff of the unit model is the regenerated `let cutoff = if … {…} else {…}` -/
+theorem fftUnit_cutoff (c : Nat → ρ) (fi fo : Nat) :
+    fftCutoff c fi fo = Formulas.fftUnit_cutoff fi fo c := by
+  unfold fftCutoff Formulas.fftUnit_cutoff
+  by_cases h : fi > fo <;> simp [h]
+
+/-- FftResampler::resample_unit: the number of spectrum bins the unit model keeps is the regenerated `new_len` -/
+theorem fftUnit_new_len (t : UnitTables σ) :
+    t.newLen = Formulas.fftUnit_new_len (ρ := ρ) t.fftIn t.fftOut := by
+  unfold UnitTables.newLen Formulas.fftUnit_new_len
+  by_cases h : t.fftIn < t.fftOut <;> simp [h]
+
+/-- FftResampler::new: table arguments `(fft_size_in, 1, cutoff, BlackmanHarris2)`, taps divided by `2·fft_size_in`, padded to
+`2·fft_size_in` — the values the theorems about `filterTaps` use are the regenerated ones -/
+theorem fftUnit_table_arguments (fi : Nat) :
+    Formulas.fftUnit_sinc_factor = 1 ∧ Formulas.fftUnit_window = Window.blackmanHarris2 ∧
+    Formulas.fftUnit_tap_divisor (ρ := ρ) fi = 2 * fi ∧ Formulas.fftUnit_filter_len (ρ := ρ) fi = 2 * fi :=
+  ⟨rfl, rfl, rfl, rfl⟩
+
 end fft
 
 /-- each FFT formula reads exactly the locals / fields the model feeds it -/
 theorem fft_formulas_read_the_expected_fields :
     Formulas.fftFormulaParams = [
-      ("fftIo_new_gcd", ["sample_rate_input", "sample_rate_output"]),
-      ("fftIo_new_min_chunk_in", ["sample_rate_input", "gcd"]),
-      ("fftIo_new_fft_chunks", ["chunk_size_in", "min_chunk_in"]),
-      ("fftIo_new_fft_size_out", ["fft_chunks", "sample_rate_output", "gcd"]),
-      ("fftIo_new_fft_size_in", ["fft_chunks", "sample_rate_input", "gcd"]),
-      ("fftIo_output_delay", ["chunk_size_out"]),
-      ("fftIn_new_gcd", ["sample_rate_input", "sample_rate_output"]),
-      ("fftIn_new_min_chunk_in", ["sample_rate_input", "gcd"]),
-      ("fftIn_new_wanted_subsize", ["chunk_size_in", "sub_chunks"]),
-      ("fftIn_new_fft_chunks", ["wanted_subsize", "min_chunk_in"]),
-      ("fftIn_new_fft_size_out", ["fft_chunks", "sample_rate_output", "gcd"]),
-      ("fftIn_new_fft_size_in", ["fft_chunks", "sample_rate_input", "gcd"]),
-      ("fftIn_output_delay", ["fft_size_out"]),
-      ("fftIn_proc_next_saved_frames", ["saved_frames", "chunk_size_in"]),
-      ("fftIn_proc_nbr_chunks_ready", ["next_saved_frames", "fft_size_in"]),
-      ("fftIn_proc_needed_len", ["nbr_chunks_ready", "fft_size_out"]),
-      ("fftIn_output_frames_next", ["saved_frames", "chunk_size_in", "fft_size_in", "fft_size_out"]),
-      ("fftIn_omax_max_stored_frames", ["fft_size_in"]),
-      ("fftIn_omax_max_available_frames", ["max_stored_frames", "chunk_size_in"]),
-      ("fftIn_omax_max_subchunks_to_process", ["max_available_frames", "fft_size_in"]),
-      ("fftIn_omax_result", ["max_subchunks_to_process", "fft_size_out"]),
-      ("fftOut_new_gcd", ["sample_rate_input", "sample_rate_output"]),
-      ("fftOut_new_min_chunk_out", ["sample_rate_output", "gcd"]),
-      ("fftOut_new_wanted_subsize", ["chunk_size_out", "sub_chunks"]),
-      ("fftOut_new_fft_chunks", ["wanted_subsize", "min_chunk_out"]),
-      ("fftOut_new_fft_size_out", ["fft_chunks", "sample_rate_output", "gcd"]),
-      ("fftOut_new_fft_size_in", ["fft_chunks", "sample_rate_input", "gcd"]),
-      ("fftOut_new_chunks_needed", ["chunk_size_out", "fft_size_out"]),
-      ("fftOut_new_frames_needed", ["chunks_needed", "fft_size_in"]),
-      ("fftOut_output_delay", ["fft_size_out"]),
-      ("fftOut_proc_chunks_needed", ["frames_needed_out", "fft_size_out"]),
-      ("fftOut_proc_frames_needed", ["chunks_needed", "fft_size_in"]),
-      ("fftOut_input_frames_max", ["chunk_size_out", "fft_size_out", "fft_size_in"]),
-      ("fftOut_reset_chunks_needed", ["chunk_size_out", "fft_size_out"]),
-      ("fftOut_reset_frames_needed", ["chunks_needed", "fft_size_in"])] := rfl
+    ("fftIo_new_gcd", ["sample_rate_input", "sample_rate_output"]),
+    ("fftIo_new_min_chunk_in", ["sample_rate_input", "gcd"]),
+    ("fftIo_new_fft_chunks", ["chunk_size_in", "min_chunk_in"]),
+    ("fftIo_new_fft_size_out", ["fft_chunks", "sample_rate_output", "gcd"]),
+    ("fftIo_new_fft_size_in", ["fft_chunks", "sample_rate_input", "gcd"]),
+    ("fftIo_output_delay", ["chunk_size_out"]),
+    ("fftIn_new_gcd", ["sample_rate_input", "sample_rate_output"]),
+    ("fftIn_new_min_chunk_in", ["sample_rate_input", "gcd"]),
+    ("fftIn_new_wanted_subsize", ["chunk_size_in", "sub_chunks"]),
+    ("fftIn_new_fft_chunks", ["wanted_subsize", "min_chunk_in"]),
+    ("fftIn_new_fft_size_out", ["fft_chunks", "sample_rate_output", "gcd"]),
+    ("fftIn_new_fft_size_in", ["fft_chunks", "sample_rate_input", "gcd"]),
+    ("fftIn_output_delay", ["fft_size_out"]),
+    ("fftIn_proc_next_saved_frames", ["saved_frames", "chunk_size_in"]),
+    ("fftIn_proc_nbr_chunks_ready", ["next_saved_frames", "fft_size_in"]),
+    ("fftIn_proc_needed_len", ["nbr_chunks_ready", "fft_size_out"]),
+    ("fftIn_output_frames_next", ["saved_frames", "chunk_size_in", "fft_size_in", "fft_size_out"]),
+    ("fftIn_omax_max_stored_frames", ["fft_size_in"]),
+    ("fftIn_omax_max_available_frames", ["max_stored_frames", "chunk_size_in"]),
+    ("fftIn_omax_max_subchunks_to_process", ["max_available_frames", "fft_size_in"]),
+    ("fftIn_omax_result", ["max_subchunks_to_process", "fft_size_out"]),
+    ("fftOut_new_gcd", ["sample_rate_input", "sample_rate_output"]),
+    ("fftOut_new_min_chunk_out", ["sample_rate_output", "gcd"]),
+    ("fftOut_new_wanted_subsize", ["chunk_size_out", "sub_chunks"]),
+    ("fftOut_new_fft_chunks", ["wanted_subsize", "min_chunk_out"]),
+    ("fftOut_new_fft_size_out", ["fft_chunks", "sample_rate_output", "gcd"]),
+    ("fftOut_new_fft_size_in", ["fft_chunks", "sample_rate_input", "gcd"]),
+    ("fftOut_new_chunks_needed", ["chunk_size_out", "fft_size_out"]),
+    ("fftOut_new_frames_needed", ["chunks_needed", "fft_size_in"]),
+    ("fftOut_output_delay", ["fft_size_out"]),
+    ("fftOut_proc_chunks_needed", ["frames_needed_out", "fft_size_out"]),
+    ("fftOut_proc_frames_needed", ["chunks_needed", "fft_size_in"]),
+    ("fftOut_input_frames_max", ["chunk_size_out", "fft_size_out", "fft_size_in"]),
+    ("fftOut_reset_chunks_needed", ["chunk_size_out", "fft_size_out"]),
+    ("fftOut_reset_frames_needed", ["chunks_needed", "fft_size_in"]),
+    ("fftUnit_cutoff", ["fft_size_in", "fft_size_out", "cutoffOf_BlackmanHarris2"]),
+    ("fftUnit_new_len", ["fft_size_in", "fft_size_out"]),
+    ("fftUnit_tap_divisor", ["fft_size_in"]),
+    ("fftUnit_filter_len", ["fft_size_in"])] := rfl
 
 end Rubato.FormulaTie
